@@ -210,7 +210,34 @@ func c05Present(r *RNG, tr T, stats map[string]int) []byte {
 }
 
 // c05Fixpoint: decode(doc) = v1; b1 = encode(v1); v2 = decode(b1); b2 = encode(v2):  v2 == normal form of v1, b2 == b1.
+// values decoded earlier, kept alive: a later decode must not disturb them
+type keptValue struct {
+	it   ap.Item
+	dump interface{}
+	doc  string
+}
+
+var c05Kept []keptValue
+
+func c05CheckKept() string {
+	for _, k := range c05Kept {
+		var now interface{}
+		if pan, msg := guard(func() { now = dumpItem(k.it) }); pan {
+			return "panic inspecting a value decoded earlier: " + msg
+		}
+		if d := firstDiff("", normTree(k.dump), normTree(now)); d != "" {
+			return "a value decoded earlier changed after later decode/encode calls, at " + d + "   its document: " + k.doc
+		}
+	}
+	return ""
+}
+
 func c05Fixpoint(doc []byte) (v1dump interface{}, viol string) {
+	defer func() {
+		if viol == "" {
+			viol = c05CheckKept()
+		}
+	}()
 	var v1, v2 ap.Item
 	var b1, b2 []byte
 	var err error
@@ -221,6 +248,10 @@ func c05Fixpoint(doc []byte) (v1dump interface{}, viol string) {
 		return nil, "decode-error: " + err.Error()
 	}
 	v1dump = dumpItem(v1)
+	c05Kept = append(c05Kept, keptValue{v1, v1dump, string(doc)})
+	if len(c05Kept) > 8 {
+		c05Kept = c05Kept[1:]
+	}
 	if pan, msg := guard(func() { b1, err = ap.MarshalJSON(v1) }); pan {
 		return v1dump, "panic in MarshalJSON of the decoded value: " + msg
 	}
@@ -338,7 +369,7 @@ func c05Mutations(r *RNG, doc []byte) [][]byte {
 
 func init() {
 	campaigns["C05"] = func(c *Ctx) {
-		c.Rule = "documents are produced by the harness from value trees generated type-directed over the whole vocabulary (same generator and covering set as C01: every struct x field x value shape, then random trees of depth <= 2/3), using the struct tags for the terms and RNG-chosen presentations (IRI string / embedded object / array; bare single value instead of a one-element array in list positions; plain string vs <term>Map language map, single-entry maps included; RFC 3339 instants with zones; xsd durations written by the harness; @context member present or not), serialised by encoding/json. (1) decoded value == the document's value under the normal form; (2) v2 = decode(encode(v1)) equals v1 under the normal form, encode(v2) == encode(v1) byte for byte. Plus every file of tests/mocks and structure-preserving mutations of it (member order, dropped member, single value wrapped in an array): clause (2) only, and the jsonRoundTrip correspondence on the decoded value."
+		c.Rule = "documents are produced by the harness from value trees generated type-directed over the whole vocabulary (same generator and covering set as C01: every struct x field x value shape, then random trees of depth <= 2/3), using the struct tags for the terms and RNG-chosen presentations (IRI string / embedded object / array; bare single value instead of a one-element array in list positions; plain string vs <term>Map language map, single-entry maps included; RFC 3339 instants with zones; xsd durations written by the harness; @context member present or not), serialised by encoding/json. (1) decoded value == the document's value under the normal form; (2) v2 = decode(encode(v1)) equals v1 under the normal form, encode(v2) == encode(v1) byte for byte; (3) the last 8 decoded values are kept alive and re-inspected after every later decode: they must not change. Plus every file of tests/mocks and structure-preserving mutations of it (member order, dropped member, single value wrapped in an array): clause (2) only, and the jsonRoundTrip correspondence on the decoded value."
 		stats := map[string]int{}
 		emit := func(c *Ctx, tr interface{}, tag string) {
 			m := sortNLVs(tr).(T) // a language map is unordered; encoding/json writes it sorted by tag
